@@ -390,6 +390,11 @@ func prop(t *rapid.T) {
 		if p.CapMax && c.Limit == 0 {
 			c.Limit = 100
 		}
+		// the test allocators copy (and poison) the whole buffer on every growth: a guest that
+		// grows page by page towards the default 4 GiB limit would make the harness quadratic
+		if p.Allocator != "" && c.Limit == 0 {
+			c.Limit = 100
+		}
 	}
 	of := featChoices[rapid.IntRange(0, len(featChoices)-1).Draw(t, "ofeat")]
 	c.OtherFeatures = uint64(of.a)
